@@ -650,27 +650,31 @@ type guardSpec struct {
 	pkg, typ, field string
 	lockField       string
 	lockTyp         string // owner of the lock when it is another struct of the same package
+	// optional: the entry describes one way of keeping a value that the code may keep
+	// differently (e.g. behind a small type with its own lock); when field or lock do
+	// not resolve the entry is skipped instead of reported as a lost anchor
+	optional bool
 }
 
 var guardTable = []guardSpec{
-	{"client", "database", "deferUpdates", "cacheMutex", ""},
-	{"client", "database", "deferredUpdates", "cacheMutex", ""},
-	{"client", "database", "monitors", "monitorsMutex", ""},
-	{"client", "database", "lastTransactionIDs", "lastTransactionIDsMutex", ""},
-	{"client", "ovsdbClient", "rpcClient", "rpcMutex", ""},
-	{"client", "ovsdbClient", "connected", "rpcMutex", ""},
-	{"client", "ovsdbClient", "endpoints", "rpcMutex", ""},
-	{"cache", "RowCache", "cache", "mutex", ""},
-	{"cache", "RowCache", "indexes", "mutex", ""},
-	{"cache", "TableCache", "cache", "mutex", ""},
-	{"cache", "TableCache", "dbModel", "mutex", ""},
-	{"cache", "eventProcessor", "handlers", "handlersMutex", ""},
-	{"server", "OvsdbServer", "monitors", "monitorMutex", ""},
-	{"server", "connectionMonitors", "monitors", "monitorMutex", "OvsdbServer"},
-	{"server", "OvsdbServer", "models", "modelsMutex", ""},
-	{"server", "OvsdbServer", "ready", "readyMutex", ""},
-	{"server", "OvsdbServer", "doEcho", "readyMutex", ""},
-	{"database/inmemory", "inMemoryDatabase", "databases", "mutex", ""},
+	{"client", "database", "deferUpdates", "cacheMutex", "", false},
+	{"client", "database", "deferredUpdates", "cacheMutex", "", false},
+	{"client", "database", "monitors", "monitorsMutex", "", false},
+	{"client", "database", "lastTransactionIDs", "lastTransactionIDsMutex", "", true},
+	{"client", "ovsdbClient", "rpcClient", "rpcMutex", "", false},
+	{"client", "ovsdbClient", "connected", "rpcMutex", "", false},
+	{"client", "ovsdbClient", "endpoints", "rpcMutex", "", false},
+	{"cache", "RowCache", "cache", "mutex", "", false},
+	{"cache", "RowCache", "indexes", "mutex", "", false},
+	{"cache", "TableCache", "cache", "mutex", "", false},
+	{"cache", "TableCache", "dbModel", "mutex", "", false},
+	{"cache", "eventProcessor", "handlers", "handlersMutex", "", false},
+	{"server", "OvsdbServer", "monitors", "monitorMutex", "", false},
+	{"server", "connectionMonitors", "monitors", "monitorMutex", "OvsdbServer", false},
+	{"server", "OvsdbServer", "models", "modelsMutex", "", false},
+	{"server", "OvsdbServer", "ready", "readyMutex", "", false},
+	{"server", "OvsdbServer", "doEcho", "readyMutex", "", false},
+	{"database/inmemory", "inMemoryDatabase", "databases", "mutex", "", false},
 }
 
 // l2Exceptions: one named function each, with the reason the access is
@@ -903,6 +907,9 @@ func ruleL2(id string, pkgs ...string) func(p *Program, r *Reporter) {
 			}
 			l := p.Field(g.pkg, lt, g.lockField)
 			if f == nil || l == nil {
+				if g.optional {
+					continue
+				}
 				r.Anchor(id, fmt.Sprintf("guard table entry %s.%s.%s -> %s", g.pkg, g.typ, g.field, g.lockField))
 				continue
 			}
